@@ -14,9 +14,9 @@ import (
 var (
 	c01MaxAge = []string{"", "0", "1", "10", "abc", "-5", "2147483648", "9223372036854775807", "9223372036854775808", "1180591620717411303424",
 		"0, max-age=3600", "10, MAX-AGE=100000"} // (repeated: the first occurrence counts, or the response is stale)
-	c01Expires = []string{"", "-1", "+0", "+10", "raw:0", "raw:garbage"}
+	c01Expires = []string{"", "-1", "+0", "+10", "raw:0", "raw:garbage", "raw:"} // ("raw:" = present but empty)
 	c01LastMod = []string{"", "-100", "-864000", "+0", "+100", "raw:garbage", "-105", "-5"} // (10 % of 105 s and of 5 s are no whole seconds)
-	c01Age     = []string{"", "0", "5", "-5", "abc", "2147483648", "100000000000000000000"}
+	c01Age     = []string{"", "0", "5", "-5", "abc", "2147483648", "100000000000000000000", "90, 95"} // (list-based: the first member counts)
 	c01Date    = []string{"", "-3600", "+3600", "absent", "raw:garbage"}
 	c01Status  = []string{"200", "203", "301", "404", "302public", "302"}
 	c01Delay   = []float64{0, 2, 30}
@@ -198,6 +198,10 @@ func c01Pinned() []c01Case {
 			}
 		}
 	}
+	// a list-based Age next to a lifetime it exceeds; an empty Expires next to
+	// an old Last-Modified
+	out = append(out, c01Decode(enc("10", "", "", "90, 95", "", "200", 0)), c01Decode(enc("", "+10", "", "90, 95", "", "200", 0)),
+		c01Decode(enc("", "raw:", "-864000", "", "", "200", 0)), c01Decode(enc("", "raw:", "-864000", "", "", "404", 0)))
 	for _, ma := range []string{"0, max-age=3600", "10, MAX-AGE=100000", "abc", "-5"} {
 		for _, ex := range []string{"", "+10"} {
 			for _, lm := range []string{"", "-864000"} {
